@@ -6,6 +6,9 @@
    a bound x all partitions into reads (incl. empty reads, cut between CR and LF); all log/dict shapes
    up to a bound.  For the fixed design (Escaping = FALSE) the clauses must hold; for the code as it is
    (Escaping measured from the code) TLC's counter-examples are replayed on the real objects.
+   TransportLife.tla (connection phase and life cycle of the PortTransport under ONE PortProtocol: never connected,
+   connected, lost, re-connected) is model-checked likewise; systematic schedules run on the real objects and every
+   exception that leaves protocol.pkt_received / _read_ready in any phase is judged by TransportLifeTrace (a2).
 2. Behaviours are taken out of TLC (-dump of the enumeration instance = every partition of every token
    stream; -simulate for longer ones; the set of log shapes), concretised with real/generated/mutated
    frames (harness/gen.py) and executed against the real PortTransport._read_ready (FakeSerial on a
@@ -36,10 +39,10 @@ ALLOWED = ("ramses_tx.exceptions.PacketInvalid", "builtins.ValueError")
 BOUNDS = {
     "quick": dict(gwy_shapes=60, extreme_per_pair=1, neighbours=1, maxlen=6, maxtok=3, simtok=6, nsim=500, maxlines=4, maxbad=2, workers=4, tlc_parallel=4,
                   n_mut_frames=40, n_rand_mut=20, n_dbl_mut=10, schema_rand=1, schema_profiles=1,
-                  file_reps=1, mqtt_shapes=300, deep_pairs=2, conc_per_beh=1),
+                  file_reps=1, mqtt_shapes=300, deep_pairs=2, conc_per_beh=1, chatter_full=False),
     "thorough": dict(gwy_shapes=500, extreme_per_pair=12, neighbours=12, maxlen=8, maxtok=4, simtok=7, nsim=5000, maxlines=5, maxbad=2, workers=8, tlc_parallel=2,
                      n_mut_frames=900, n_rand_mut=60, n_dbl_mut=40, schema_rand=6, schema_profiles=3,
-                     file_reps=2, mqtt_shapes=3000, deep_pairs=12, conc_per_beh=1),
+                     file_reps=2, mqtt_shapes=3000, deep_pairs=12, conc_per_beh=1, chatter_full=True),
 }
 
 
@@ -217,6 +220,7 @@ class Pools:
         self.focus: tuple[str, str] | None = None
         self._ki = 0
         self.escapers: list[str] = []  # lines found by stage A whose exception escapes (one per signature)
+        self.chatter = rx.chatter_lines(False)
         self.template_only = False     # counter-example replays use the modelled class only
 
     def next_valid(self) -> str:
@@ -242,8 +246,8 @@ class Pools:
             return f"045 {gen.assert_path_frame(rng)}"
         if cls == "pktonly":
             return gen.line_of_class("badPayload", rng, [f])[1]
-        if cls == "chatter":
-            return gen.line_of_class("chatter", rng, [f])[1]
+        if cls == "chatter":    # the few lines quoted from an evofw3, or a member of the systematic family
+            return rng.choice(self.chatter) if rng.random() < 0.5 else gen.line_of_class("chatter", rng, [f])[1]
         op, m = gen.mutants(f, rng, 1)[0] if rng.random() < 0.7 else gen.double_mutants(f, rng, 1)[0]
         return f"045 {m}"
 
@@ -389,6 +393,8 @@ def shape_lines(shape: tuple[str, ...], pools: Pools, rng: random.Random) -> lis
         tag, rest = gen.line_of_class(cls, rng, [f])
         if cls == "assertPath":
             rest = pools.content("assert")
+        if cls == "chatter":
+            rest = pools.content("chatter")
         dtm = f"2026-01-01T00:00:{k:02d}.{rng.randrange(10**6):06d}"
         if cls == "badDtm":
             dtm = (tag[:19] + f".{k:02d}{rng.randrange(10**4):04d}")[:26].ljust(26, "z")
@@ -725,6 +731,9 @@ def stage_a_lines(b: dict, rng: random.Random) -> tuple[list[str], dict]:
     for cls in gen.LINE_CLASSES:
         for _ in range(30):
             add("line_class", gen.line_of_class(cls, rng, frames[:200])[1])
+    for ln in rx.chatter_lines(b["chatter_full"]):
+        add("chatter", ln)
+        add("chatter", f"000 {ln}")
     return list(lines), counts
 
 
@@ -789,6 +798,70 @@ def kin_streams(pools: Pools, rng: random.Random, full: bool) -> list[tuple[list
     return out
 
 
+def _pieces(text: str, split: bool = False) -> tuple[list[str], list[bytes]]:
+    """One line as symbols of RxPipeline: a run of ASCII bytes = one piece "x" (two if `split`), every other byte = "B"."""
+    sym: list[str] = []
+    bs: list[bytes] = []
+    run = b""
+    for ch in text.encode():
+        if ch < 0x80:
+            run += bytes([ch])
+            continue
+        if run:
+            sym.append("x")
+            bs.append(run)
+            run = b""
+        sym.append("B")
+        bs.append(bytes([ch]))
+    if run:
+        sym.append("x")
+        bs.append(run)
+    if split:
+        j = max(range(len(bs)), key=lambda i: len(bs[i]))
+        if len(bs[j]) > 1:
+            h = len(bs[j]) // 2
+            sym[j:j + 1] = ["x", "x"]
+            bs[j:j + 1] = [bs[j][:h], bs[j][h:]]
+    return sym, bs
+
+
+def chatter_streams(pools: Pools, full: bool) -> list[tuple[list[str], list[int], dict]]:
+    """Every line of rx.chatter_lines() inside a stream of good frames, at piece level: between good frames in ONE read
+    (what follows it in the same read must still be delivered), first in a read, last in a read with a further read
+    behind it, and cut in two by the read boundary.  Lines of up to two tokens: the first layout and one of the other
+    three in rotation (thorough: all four); longer lines: one layout in rotation (thorough: the first and one other)."""
+    out = []
+    pools.focus = None
+    good: list[str] = []            # a small rotating set of good frames (their isolated outcome is measured once)
+    while len(good) < (60 if full else 12):
+        t = pools.content("valid")
+        if t not in good:
+            good.append(t)
+    for i, (c, ntok) in enumerate(rx.chatter_family(full)):
+        g = [good[(3 * i + j) % len(good)] for j in range(3)]
+        layouts = {
+            0: ([g[0], c, g[1], g[2]], None, lambda n: [n[4]]),                 # n[j] = symbols up to the end of line j
+            1: ([c, g[0], g[1]], None, lambda n: [n[3]]),
+            2: ([g[0], g[1], c, g[2]], None, lambda n: [n[3], n[4] - n[3]]),
+            3: ([g[0], c, g[1], g[2]], 1, lambda n: [n[1] + 1, n[4] - n[1] - 1]),   # the cut falls inside the chatter line
+        }
+        for lay in ((0, 1, 2, 3) if full and ntok <= 2 else (0, 1 + i % 3) if full or ntok <= 2 else ((0, 1, 3, 2)[i % 4],)):
+            texts, split_at, plan = layouts[lay]
+            sym: list[str] = []
+            bs: list[bytes] = []
+            ends = [0]
+            for j, t in enumerate(texts):
+                sy, by = _pieces(t, split=(j == split_at))
+                sym += sy + ["CR", "LF"]
+                bs += by + [b"\r", b"\n"]
+                ends.append(len(sym))
+            cuts = plan(ends)
+            if sum(cuts) != len(sym) or min(cuts) < 1:
+                raise tlc.MachineryFailure(f"chatter_streams: bad plan {cuts} for {texts}")
+            out.append((sym, cuts, {"texts": texts, "bytes": bs}))
+    return out
+
+
 def concretise_chars(sym: list[str], cuts: list[int], extra: dict) -> dict:
     texts, bs = extra["texts"], extra["bytes"]
     chunks, p = [], 0
@@ -799,12 +872,34 @@ def concretise_chars(sym: list[str], cuts: list[int], extra: dict) -> dict:
             "lines": [t.encode() for t in texts], "chunks": chunks}
 
 
+def _pkts_unconnected(items: list[dict]) -> int:
+    """Measured: packets that entered protocol.pkt_received before connection_made / after connection_lost."""
+    n = 0
+    for it in items:
+        up = False
+        for e in it["ev"]:
+            if e["e"] == "made":
+                up = True
+            elif e["e"] in ("lost", "open"):
+                up = False
+            elif e["e"] == "pkt" and not up:
+                n += 1
+    return n
+
+
 def life_stage(chk: Check, tier: str, stats: dict, only: list | None = None) -> list:
     """TLC on TransportLife (signature polling, echo, connection_made once with the right id, delivery whatever the
     phase); systematic schedules on the real PortTransport; TLC folds every recorded execution."""
-    for cfg in ("MC_TransportLife.cfg", "MC_TransportLife_ro.cfg"):
-        r = tlc.run_tlc("MC_TransportLife", cfg, workers=2, timeout=300)
-        if not r.ok:
+    from concurrent.futures import ThreadPoolExecutor
+
+    cfgs = ("MC_TransportLife.cfg", "MC_TransportLife_ro.cfg", "MC_TransportLife_x_strict.cfg")
+    with ThreadPoolExecutor(max_workers=3) as ex:
+        runs = list(ex.map(lambda c: tlc.run_tlc("MC_TransportLife", c, workers=2, timeout=300), cfgs))
+    for cfg, r in zip(cfgs, runs):
+        if "_x_" in cfg:    # sensitivity instance: must be refuted (the a2 clause is not vacuous in the model)
+            if r.errors or r.violated != ["NoEscape"]:
+                chk.model_drift(f"TLC: {cfg} should refute NoEscape, got {r.violated or r.errors[:2]}")
+        elif not r.ok:
             chk.model_drift(f"TLC: {cfg} violates {r.violated or r.errors[:2]}")
         stats.setdefault("life_mc", []).append({"cfg": cfg, "distinct": r.distinct, "generated": r.states, "violated": r.violated})
     scheds = only if only is not None else rx.life_schedules(tier != "quick")
@@ -813,8 +908,26 @@ def life_stage(chk: Check, tier: str, stats: dict, only: list | None = None) -> 
         return [await rx.run_life(st, snd) for st, snd in scheds]
 
     items, _loop = vloop.run(go)
+    # canaries (the judge must not be blind): a recorded execution with an injected escape of a type the property does
+    # not allow has to be rejected under a2, the same with the library's own invalid-packet error has to be accepted
+    import copy
+
+    n_real = len(items)
+    base = next((it for it in items if any(e["e"] == "open" for e in it["ev"])), items[0])
+    for mro in (["builtins.RuntimeError", "builtins.Exception"], ["ramses_tx.exceptions.PacketInvalid", "builtins.Exception"]):
+        it = copy.deepcopy(base)
+        at = next(i for i, e in enumerate(it["ev"]) if e["e"] == "pkt") + 1
+        it["ev"].insert(at, {"e": "exc", "k": "Canary@harness.canary", "mro": mro})
+        items.append(it)
     res = tlc.validate_batch("TransportLifeTrace", items, workers=2, timeout=600)
-    stats["life"] = {"schedules": len(items), "events": sum(len(i["ev"]) for i in items), "rejected": len(res["rejects"])}
+    got = {i: [c for _l, c in f] for i, f in res["rejects"]}
+    if "a2:Canary@harness.canary:port" not in got.get(n_real, []) or n_real + 1 in got and got[n_real + 1] != got.get(items.index(base), []):
+        raise tlc.MachineryFailure(f"TransportLifeTrace canaries: {got.get(n_real)} / {got.get(n_real + 1)}")
+    res["rejects"] = [(i, f) for i, f in res["rejects"] if i < n_real]
+    items = items[:n_real]
+    stats["life"] = {"schedules": len(items), "events": sum(len(i["ev"]) for i in items), "rejected": len(res["rejects"]),
+                     "re_connects": sum(1 for i in items for e in i["ev"] if e["e"] == "open"),
+                     "pkts_while_not_connected": _pkts_unconnected(items)}
     seen = set()
     for idx, fails in res["rejects"]:
         for line, cls in fails:
@@ -823,10 +936,15 @@ def life_stage(chk: Check, tier: str, stats: dict, only: list | None = None) -> 
             seen.add(cls)
             what = (f"{cls} at event {line} of the connection-phase schedule {scheds[idx][0]} "
                     f"(sending={scheds[idx][1]}): {items[idx]['ev']}")
-            if cls.startswith("b:"):
-                chk.violation(cls + ":connection-phase", what, {"stage": "life", "steps": scheds[idx][0], "sending": scheds[idx][1]})
+            if cls.startswith("harness:"):
+                raise tlc.MachineryFailure(f"TransportLifeTrace: {what[:600]}")
+            if cls.startswith(("b:", "a2:")):
+                chk.violation(cls + ":connection-phase", what[:1500], {"stage": "life", "steps": scheds[idx][0], "sending": scheds[idx][1]})
             else:
                 chk.model_drift(what[:600])
+    if rx.LIFE_OTHER_EXC:
+        chk.note(f"{len(rx.LIFE_OTHER_EXC)} loop exceptions outside the receive path during connection-phase schedules "
+                 f"(not C01), e.g. {rx.LIFE_OTHER_EXC[0]}")
     return res["rejects"]
 
 
@@ -938,6 +1056,10 @@ def main(tier: str, replay: str | None) -> None:
                     out.append(await runner.run(concretise_chars(sym, cuts, extra)))
                 for sym, cuts, extra in kin_streams(pools, rng, tier != "quick"):
                     out.append(await runner.run(concretise_chars(sym, cuts, extra)))
+                n0 = len(out)
+                for sym, cuts, extra in chatter_streams(pools, b["chatter_full"]):
+                    out.append(await runner.run(concretise_chars(sym, cuts, extra)))
+                stats["chatter_streams"] = len(out) - n0
             finally:
                 runner.close()
             return out
@@ -1069,7 +1191,7 @@ def do_replay(path: str) -> None:
             chk = Check(PID, "quick", "model_checking")
             rej = life_stage(chk, "quick", {}, only=[(rp["steps"], bool(rp["sending"]))])
             print("TLC verdict:", rej or "accepted")
-            raise SystemExit(1 if any(c.startswith("b:") for _i, f in rej for _l, c in f) else 0)
+            raise SystemExit(1 if any(c.startswith(("b:", "a2:")) for _i, f in rej for _l, c in f) else 0)
         if rp["stage"] == "paused":
             chk = Check(PID, "quick", "model_checking")
             rej = paused_stage(chk, "quick", {}, random.Random(0), only=[rp["steps"]])
